@@ -11,6 +11,7 @@ PROP = {
             "Sonic.Props.C06.C06_segmentation_independent",
             "Sonic.Props.C06.C06_control_callback",
             "Sonic.Props.C06.C06_frame_message_consistent",
+            "Sonic.Props.C06.C06_segments_flatten",
             "Sonic.Lemmas.WsMsg.readNextFuel_frame",
             "Sonic.Lemmas.WsMsg.readNextFuel_drained",
             "Sonic.Lemmas.WsMsg.nextFrame_head",
